@@ -76,4 +76,20 @@ def run : St → List Op → St × List Out
     let (s2, os) := run s1 ops
     (s2, o :: os)
 
+/-! ### capability matching of a single-valued registration parameter
+
+`Registration.filter_client_request` + `match_claim`: a parameter the table `register2preferred` does not know passes unchecked; one it
+knows is held against the list the provider's metadata announces under the mapped name — when the metadata has that name at all — and is
+DROPPED (not stored, not echoed) when the list is empty or does not contain the value. -/
+
+def lookupS (t : List (String × String)) (k : String) : Option String := (t.find? (fun e => e.1 == k)).map (·.2)
+
+def filterParam (table : List (String × String)) (announced : String → Option (List String)) (k v : String) : Option String :=
+  match lookupS table k with
+  | none => some v
+  | some sup =>
+    match announced sup with
+    | none => some v
+    | some l => if l.contains v then some v else none
+
 end Idpy.Registration
